@@ -1,5 +1,7 @@
 /-
-  Proofs/C14.lean — helper lemmas for the C14 property files (chunk calculus on bit buffers).
+  Proofs/C14.lean — helper lemmas shared by the C14 property files: the chunk calculus on bit buffers
+  (a buffer that is `bs.flatten ++ t` with all blocks `w` long and `|t| < w`) and the in-range forms of the
+  `BitArray` slice primitives.
 -/
 import BitstringModel.Model.C14
 import BitstringModel.Proofs.C01
@@ -9,5 +11,202 @@ import Mathlib.Data.List.Basic
 
 namespace BM.C14
 open BM
+
+/-! ### blocks -/
+
+theorem blocks_flatten_length {α} (w : Nat) (bs : List (List α)) (hbs : ∀ b ∈ bs, b.length = w) :
+    bs.flatten.length = bs.length * w := by
+  induction bs with
+  | nil => simp
+  | cons b bs ih =>
+    have hb : b.length = w := hbs b (by simp)
+    have := ih (fun x hx => hbs x (by simp [hx]))
+    simp only [List.flatten_cons, List.length_append, List.length_cons, hb, this]
+    ring
+
+theorem take_blocks {α} (w : Nat) (bs : List (List α)) (t : List α) (hbs : ∀ b ∈ bs, b.length = w) (k : Nat)
+    (hk : k ≤ bs.length) : (bs.flatten ++ t).take (k * w) = (bs.take k).flatten := by
+  induction bs generalizing k with
+  | nil =>
+    have : k = 0 := by simpa using hk
+    subst this; simp
+  | cons b bs ih =>
+    have hb : b.length = w := hbs b (by simp)
+    cases k with
+    | zero => simp
+    | succ k =>
+      have hk' : k ≤ bs.length := by simpa using hk
+      have := ih (fun x hx => hbs x (by simp [hx])) k hk'
+      simp only [List.flatten_cons, List.append_assoc, List.take_succ_cons]
+      rw [List.take_append, List.take_of_length_le (by rw [hb]; nlinarith)]
+      rw [hb]
+      have e : (k + 1) * w - w = k * w := by
+        rw [Nat.add_mul, Nat.one_mul, Nat.add_sub_cancel]
+      rw [e, this]
+
+theorem drop_blocks {α} (w : Nat) (bs : List (List α)) (t : List α) (hbs : ∀ b ∈ bs, b.length = w) (k : Nat)
+    (hk : k ≤ bs.length) : (bs.flatten ++ t).drop (k * w) = (bs.drop k).flatten ++ t := by
+  induction bs generalizing k with
+  | nil =>
+    have : k = 0 := by simpa using hk
+    subst this; simp
+  | cons b bs ih =>
+    have hb : b.length = w := hbs b (by simp)
+    cases k with
+    | zero => simp
+    | succ k =>
+      have hk' : k ≤ bs.length := by simpa using hk
+      have := ih (fun x hx => hbs x (by simp [hx])) k hk'
+      simp only [List.flatten_cons, List.append_assoc, List.drop_succ_cons]
+      rw [List.drop_append, List.drop_of_length_le (by rw [hb]; nlinarith)]
+      rw [hb]
+      have e : (k + 1) * w - w = k * w := by
+        rw [Nat.add_mul, Nat.one_mul, Nat.add_sub_cancel]
+      rw [e, this]
+      simp
+
+/-- The `k`-th block sits at bit offset `k * w`. -/
+theorem block_at {α} (w : Nat) (bs : List (List α)) (t : List α) (hbs : ∀ b ∈ bs, b.length = w) (k : Nat)
+    (hk : k < bs.length) : ((bs.flatten ++ t).drop (k * w)).take w = bs[k] := by
+  rw [drop_blocks w bs t hbs k (by omega)]
+  rw [List.drop_eq_getElem_cons hk]
+  have hb : (bs[k]).length = w := hbs _ (List.getElem_mem hk)
+  simp only [List.flatten_cons, List.append_assoc]
+  rw [List.take_append, List.take_of_length_le (by omega)]
+  simp [hb]
+
+theorem blocks_div {α} (w : Nat) (hw : 0 < w) (bs : List (List α)) (t : List α) (hbs : ∀ b ∈ bs, b.length = w)
+    (ht : t.length < w) : (bs.flatten ++ t).length / w = bs.length := by
+  rw [List.length_append, blocks_flatten_length w bs hbs]
+  rw [Nat.mul_comm, Nat.mul_add_div hw, Nat.div_eq_of_lt ht]
+  simp
+
+/-- Uniqueness of the item view. -/
+theorem chunks_of_blocks (w : Nat) (hw : 0 < w) (bs : List Bits) (t : Bits) (hbs : ∀ b ∈ bs, b.length = w)
+    (ht : t.length < w) : chunks w (bs.flatten ++ t) = bs := by
+  unfold chunks
+  rw [blocks_div w hw bs t hbs ht]
+  apply List.ext_getElem
+  · simp
+  · intro i h1 h2
+    simp only [List.getElem_map, List.getElem_range]
+    exact block_at w bs t hbs i h2
+
+theorem trailing_of_blocks (w : Nat) (hw : 0 < w) (bs : List Bits) (t : Bits) (hbs : ∀ b ∈ bs, b.length = w)
+    (ht : t.length < w) : trailing w (bs.flatten ++ t) = t := by
+  unfold trailing
+  rw [blocks_div w hw bs t hbs ht, Nat.mul_comm]
+  rw [drop_blocks w bs t hbs bs.length (by omega)]
+  simp
+
+/-! ### every buffer is blocks ++ trailing -/
+
+theorem chunks_len (w : Nat) (d : Bits) : (chunks w d).length = d.length / w := by
+  simp [chunks]
+
+theorem chunks_mem_length (w : Nat) (hw : 0 < w) (d : Bits) : ∀ b ∈ chunks w d, b.length = w := by
+  intro b hb
+  unfold chunks at hb
+  simp only [List.mem_map, List.mem_range] at hb
+  obtain ⟨k, hk, rfl⟩ := hb
+  simp only [List.length_take, List.length_drop]
+  have h1 : w * (d.length / w) ≤ d.length := Nat.mul_div_le _ _
+  have h2 : (k + 1) * w ≤ (d.length / w) * w := Nat.mul_le_mul_right w hk
+  have h3 : (d.length / w) * w = w * (d.length / w) := Nat.mul_comm _ _
+  have h4 : (k + 1) * w = k * w + w := by ring
+  omega
+
+theorem trailing_lt (w : Nat) (hw : 0 < w) (d : Bits) : (trailing w d).length < w := by
+  unfold trailing
+  simp only [List.length_drop]
+  have := Nat.mod_lt d.length hw
+  have h2 := Nat.div_add_mod d.length w
+  omega
+
+theorem flatten_chunks_aux (w : Nat) (d : Bits) (n : Nat) (hn : n * w ≤ d.length) :
+    ((List.range n).map fun k => (d.drop (k * w)).take w).flatten = d.take (n * w) := by
+  induction n with
+  | zero => simp
+  | succ n ih =>
+    have h1 : n * w ≤ d.length := by
+      have : (n + 1) * w = n * w + w := by ring
+      omega
+    rw [List.range_succ, List.map_append, List.flatten_append, ih h1]
+    simp only [List.map_cons, List.map_nil, List.flatten_cons, List.flatten_nil, List.append_nil]
+    have e : (n + 1) * w = n * w + w := by ring
+    rw [e, List.take_add]
+
+/-- The layout: `d = chunks ++ trailing`. -/
+theorem layout (w : Nat) (d : Bits) : d = (chunks w d).flatten ++ trailing w d := by
+  unfold chunks trailing
+  have h : (d.length / w) * w ≤ d.length := by
+    rw [Nat.mul_comm]; exact Nat.mul_div_le _ _
+  rw [flatten_chunks_aux w d _ h, Nat.mul_comm w]
+  exact (List.take_append_drop _ _).symm
+
+/-- Every buffer in block form (the form in which all operation lemmas are proved). -/
+theorem exists_blocks (w : Nat) (hw : 0 < w) (d : Bits) :
+    (∀ b ∈ chunks w d, b.length = w) ∧ (trailing w d).length < w ∧ d = (chunks w d).flatten ++ trailing w d :=
+  ⟨chunks_mem_length w hw d, trailing_lt w hw d, layout w d⟩
+
+/-! ### the slice primitives on in-range offsets -/
+
+theorem sliceIndices_nat (a b n : Nat) (ha : a ≤ n) (hb : b ≤ n) :
+    Py.sliceIndices (some (a : Int)) (some (b : Int)) 1 n = ((a : Int), (b : Int), 1) := by
+  have h1 : ¬ ((a : Int) < 0) := by omega
+  have h2 : ¬ ((b : Int) < 0) := by omega
+  have h3 : ¬ ((1 : Int) < 0) := by omega
+  simp only [Py.sliceIndices, h1, h2, h3, if_false]
+  congr 1
+  · omega
+  · congr 1; omega
+
+theorem bslice_nat (d : Bits) (a b : Nat) (ha : a ≤ d.length) (hb : b ≤ d.length) :
+    bslice d (some (a : Int)) (some (b : Int)) = (d.drop a).take (b - a) := by
+  unfold bslice
+  rw [sliceIndices_nat a b d.length ha hb]
+  simp only [Int.toNat_natCast]
+  congr 1
+  omega
+
+theorem bsetSlice_nat (d new : Bits) (a b : Nat) (ha : a ≤ d.length) (hb : b ≤ d.length) (hab : a ≤ b) :
+    bsetSlice d (a : Int) (b : Int) new = d.take a ++ new ++ d.drop b := by
+  unfold bsetSlice
+  rw [sliceIndices_nat a b d.length ha hb]
+  simp only [Int.toNat_natCast]
+  congr 2
+  omega
+
+theorem bdelSlice_nat (d : Bits) (a b : Nat) (ha : a ≤ d.length) (hb : b ≤ d.length) (hab : a ≤ b) :
+    bdelSlice d (a : Int) (b : Int) = d.take a ++ d.drop b := by
+  unfold bdelSlice
+  rw [sliceIndices_nat a b d.length ha hb]
+  simp only [Int.toNat_natCast]
+  congr 2
+  omega
+
+/-- With `mult = 1` the bit width is `L`. -/
+theorem w_eq_L {V} (c : Codec V) (hu : c.mult = 1) : c.w = c.L := by
+  simp [Codec.w, hu]
+
+/-- Replacing / removing / inserting whole blocks, in block form. -/
+theorem set_block (w : Nat) (bs : List Bits) (t nb : Bits) (hbs : ∀ b ∈ bs, b.length = w) (k : Nat) (hk : k < bs.length) :
+    (bs.flatten ++ t).take (k * w) ++ nb ++ (bs.flatten ++ t).drop (k * w + w) = (bs.set k nb).flatten ++ t := by
+  have e : k * w + w = (k + 1) * w := by ring
+  rw [e, take_blocks w bs t hbs k (by omega), drop_blocks w bs t hbs (k + 1) (by omega)]
+  rw [List.set_eq_take_append_cons_drop]
+  simp [hk]
+
+theorem erase_block (w : Nat) (bs : List Bits) (t : Bits) (hbs : ∀ b ∈ bs, b.length = w) (k : Nat) (hk : k < bs.length) :
+    (bs.flatten ++ t).take (k * w) ++ (bs.flatten ++ t).drop (k * w + w) = (bs.eraseIdx k).flatten ++ t := by
+  have e : k * w + w = (k + 1) * w := by ring
+  rw [e, take_blocks w bs t hbs k (by omega), drop_blocks w bs t hbs (k + 1) (by omega)]
+  rw [List.eraseIdx_eq_take_drop_succ]
+  simp
+
+theorem insert_block (w : Nat) (bs : List Bits) (t nb : Bits) (hbs : ∀ b ∈ bs, b.length = w) (k : Nat) (hk : k ≤ bs.length) :
+    (bs.flatten ++ t).take (k * w) ++ nb ++ (bs.flatten ++ t).drop (k * w) = (bs.take k ++ nb :: bs.drop k).flatten ++ t := by
+  rw [take_blocks w bs t hbs k hk, drop_blocks w bs t hbs k hk]
+  simp
 
 end BM.C14
